@@ -1,4 +1,4 @@
 SPECIFICATION TSpec
 CONSTANTS
   TraceFile = "trace.ndjson"
-INVARIANTS RRule RUnconf RRawWhen RHistIndep SLucky SLReset SNtimed SNState
+INVARIANTS RRule RUnconf RRawWhen RHistIndep SLucky SLReset SNtimed SNReads SNState
